@@ -412,6 +412,12 @@ class Sim:
             return Ptr(st.refobjs[v.name])
         if isinstance(v, Opaque) and v.kind in ("Rc", "Arc", "Box"):
             return v.data[0]
+        if isinstance(v, Sym) and v.ty is not None and v.ty.get("k") == "adt" and v.ty["name"] in ("Rc", "Arc", "Box"):
+            if v.name not in st.refobjs:
+                oid = st.new_obj("*" + v.name, Sym("*" + v.name, v.ty["args"][0]))
+                st.labels[oid] = "*" + v.name
+                st.refobjs[v.name] = oid
+            return Ptr(st.refobjs[v.name])
         if isinstance(v, Const) and isinstance(v.val, str):
             key = "str:" + v.val
             if key not in st.refobjs:
@@ -946,6 +952,8 @@ class Sim:
         if isinstance(v, Opaque):
             if v.kind in ("RefGuard", "RefMutGuard"):
                 self.models.release_guard(self, st, v)
+            elif v.kind == "LockGuard":
+                st.effects.append(("unlock", v.data[0], self.obj_label(st, v.data[1])))
             elif v.kind in ("Closure",):
                 for x in v.data[1]:
                     self.drop_value(st, x, depth + 1)
